@@ -12,9 +12,9 @@ for p in ${PROPS:-C01 C02 C03 C06 C09 C11 C12 C14 C16 C17}; do
   a=$(mktemp); b=$(mktemp)
   $BIN determinism $p $N 0 > $a 2>/dev/null
   slice=$((N/8))
-  for i in 7 3 5 1 0 2 4 6; do $BIN determinism $p $slice $((i*slice)) 2>/dev/null; done | sort -n > $b
-  head -$((slice*8)) $a | sort -n > $a.s
-  if cmp -s $a.s $b; then echo "determinism $p: $((slice*8)) runs identical across processes and batch orders"; else echo "determinism $p: MISMATCH"; diff $a.s $b | head -5; fail=2; fi
+  for i in 7 3 5 1 0 2 4 6; do $BIN determinism $p $slice $((i*slice)) 2>/dev/null; done | sort -k1,1n -k2,2 > $b
+  awk -v m=$((slice*8)) '$1 < m' $a | sort -k1,1n -k2,2 > $a.s
+  if cmp -s $a.s $b; then echo "determinism $p: $((slice*8)) runs per world ($(cut -d" " -f2 $a.s | sort -u | tr "\n" " ")) identical across processes and batch orders"; else echo "determinism $p: MISMATCH"; diff $a.s $b | head -5; fail=2; fi
   rm -f $a $b $a.s
 done
 exit $fail
